@@ -8,6 +8,8 @@ CONSTANTS
   Shifts = {0, 1}
   Mods = {"all", "first"}
   Probs = {"P1", "P2", "P3", "P4"}
+  Pads = {0}
+  Padfs = {0}
 VIEW view
 PROPERTIES Prop_C17
 CHECK_DEADLOCK FALSE
